@@ -49,7 +49,7 @@ import (
 
 func init() {
 	register(&Suite{Name: "e2e_metrics", Parallel: 6, Gen: genE2EM, Exec: execE2EM,
-		Rule: "1..5 series (names sharing prefixes; tag sets differing in one value / one key / subsets; keys that are suffixes of other keys; TSID-preimage collision pairs; values with spaces, unicode, punctuation, JSON escapes, 65535/65536+ bytes, values sent as JSON numbers; series without tags) ingested as OpenTSDB JSON, through Prometheus remote write, or both within one series × float64 values from the adversarial Gorilla pool incl. -0 or small integers × timestamps (irregular steps at dod bucket edges, large gaps, bucket-aligned for every downsample interval used) × ingest histories with out-of-order points and 0..2 block and 0..2 segment rotations × selector and sum/min/max/avg/count by/without queries incl. range boundaries on points, regex on __name__, several matchers on one label; plus cardinality lines (65535..131071 series sharing one tag value); each case in its own engine process, every query answered before and after a final rotation; non-trivial = ≥2 ingested points and ≥1 query"})
+		Rule: "1..5 series (names sharing prefixes; tag sets differing in one value / one key / subsets; keys that are suffixes of other keys; TSID-preimage collision pairs; values with spaces, unicode, punctuation, JSON escapes, 65535/65536+ bytes, values sent as JSON numbers; series without tags) ingested as OpenTSDB JSON, through Prometheus remote write, or both within one series × float64 values from the adversarial Gorilla pool incl. -0 or small integers × timestamps (irregular steps at dod bucket edges, large gaps, bucket-aligned for every downsample interval used) × ingest histories with out-of-order points and 0..2 block and 0..2 segment rotations × selector and sum/min/max/avg/count by/without queries incl. range boundaries on points, regex on __name__, several matchers on one label; every fourth case: binary operators (+ - * / % ^, == != > < >= <= with and without bool, and/or/unless, default matching) between two operands (selector, selector with a matcher, aggregation) over two or three metrics whose names are prefixes of each other and that share some label sets and not others, label values over an alphabet with { } = \" \\ space unicode and the empty string, a few timestamps present on one side only; plus cardinality lines (65535..131071 series sharing one tag value); each case in its own engine process, every query answered before and after a final rotation; non-trivial = ≥2 ingested points and ≥1 query"})
 }
 
 type mkv struct {
@@ -74,7 +74,7 @@ var mNamePool = [][]string{
 	{"cpu", "CPU", "Cpu", "cpU"}, // names differing only in case
 }
 var mValPool = []string{"h1", "h2", "x", "y", "s1", "s2", "xa", "a", "1", "0", "h1x", "xh1", "ab", "b", "H1", "X", "A"}
-var mOddVals = []string{"sp ace", "ü", "a.b", "a-b", "a=b", "a|b", "a/b", "h1 ", "日本", "(x)", "a+b", "[1]", "x:y",
+var mOddVals = []string{"sp ace", "ü", "a.b", "a-b", "a=b", "a|b", "a/b", "h1 ", "日本", "(x)", "a+b", "[1]", "x:y", "/api/{id}", "{", "}", "{}", "a{b",
 	"", "", "", " ", " ", "  ", `q"uote`, `back\slash`, `\"`, strings.Repeat("v", 300), strings.Repeat("long-", 700) + "x", strings.Repeat("long-", 700) + "y"}
 
 func isIdent(s string) bool {
@@ -215,9 +215,180 @@ func genE2EM(r *rand.Rand, n int, tier string) []string {
 			out = append(out, genE2EMCard(r))
 			continue
 		}
+		if c%4 == 3 { // binary operators between two vectors
+			out = append(out, genE2EMBinCase(r))
+			continue
+		}
 		out = append(out, genE2EMCase(r, tags))
 	}
 	return out
+}
+
+var mBinNames = [][]string{{"hits", "hits_total", "errs"}, {"m", "mm", "m_x"}, {"http_requests", "http", "http_requests_total"}, {"cpu", "cpu_t", "cp"}, {"a", "ab", "b"}}
+var mBinVals = []string{"h1", "h2", "h1", "/health", "/api/{id}", "/api/{id}/x", "{", "}", "{}", "}{", "a=b", `q"t`, `b\s`, " ", "sp ace", "ü", "日本", "", "x:y", "m{", "{id}", "1"}
+var mBinOps = []string{"add", "sub", "mul", "div", "mod", "pow", "eq", "ne", "gt", "lt", "ge", "le", "and", "or", "unless", "div", "sub", "and", "unless", "or"}
+
+// BINARY-OPERATOR case: two or three metrics (names that are prefixes of each other) over a common pool of tag sets, so that
+// the operands share some series and not others; label values over an alphabet with { } = " \ space unicode and the empty
+// string; integer values on a bucket-aligned grid (a few timestamps missing on one side); selectors, selectors with a
+// matcher and aggregations as operands.
+func genE2EMBinCase(r *rand.Rand) string {
+	step := []uint32{1, 5, 10, 60}[r.Intn(4)]
+	t0 := mBase + uint32(r.Intn(30000000))
+	t0 -= t0 % 3600
+	start, end := t0, t0+360*step
+	fam := mBinNames[r.Intn(len(mBinNames))]
+	keyFam := [][]string{{"host", "route"}, {"dc", "k"}, {"job", "instance", "route"}, {"route"}, {"host", "st"}}[r.Intn(5)]
+	val := func() string {
+		if r.Intn(200) == 0 {
+			return []string{"a,b", ","}[r.Intn(2)] // recorded class value-has-comma
+		}
+		return mBinVals[r.Intn(len(mBinVals))]
+	}
+	var pool [][]mkv
+	seen := map[string]bool{}
+	for tries := 0; len(pool) < 2+r.Intn(3) && tries < 30; tries++ {
+		var l []mkv
+		for _, k := range keyFam {
+			if len(l) > 0 && r.Intn(10) == 0 { // a set that lacks a key
+				continue
+			}
+			l = append(l, mkv{k: k, v: val()})
+		}
+		if len(pool) > 0 && r.Intn(2) == 0 { // one value differs from an earlier set
+			l = append([]mkv(nil), pool[r.Intn(len(pool))]...)
+			l[r.Intn(len(l))].v = val()
+		}
+		if !seen[canonLabels(l)] {
+			seen[canonLabels(l)] = true
+			pool = append(pool, l)
+		}
+	}
+	nmet := 2 + r.Intn(2)
+	var sers []mser
+	for m := 0; m < nmet; m++ {
+		for _, l := range pool {
+			if r.Intn(10) < 7 {
+				sers = append(sers, mser{name: fam[m], labels: append([]mkv(nil), l...)})
+			}
+		}
+	}
+	if len(sers) == 0 {
+		sers = append(sers, mser{name: fam[0], labels: append([]mkv(nil), pool[0]...)})
+	}
+	var grid []uint32
+	k := uint32(r.Intn(20))
+	for i := 1 + r.Intn(4); i > 0; i-- {
+		grid = append(grid, t0+step*k)
+		k += uint32(1 + r.Intn(60))
+	}
+	for i := range sers {
+		for _, t := range grid {
+			if r.Intn(7) == 0 { // a timestamp this series does not have
+				continue
+			}
+			v := float64(r.Intn(40) - 8)
+			if r.Intn(3) == 0 {
+				v = float64(r.Intn(5))
+			}
+			sers[i].pts = append(sers[i].pts, mpt{t, math.Float64bits(v)})
+		}
+		if len(sers[i].pts) == 0 {
+			sers[i].pts = append(sers[i].pts, mpt{grid[0], math.Float64bits(3)})
+		}
+	}
+	// history: every series in time order, interleaved; 0..1 block and segment rotations
+	type ref struct{ i, j int }
+	var refs []ref
+	for i, s := range sers {
+		for j := range s.pts {
+			refs = append(refs, ref{i, j})
+		}
+	}
+	r.Shuffle(len(refs), func(a, b int) { refs[a], refs[b] = refs[b], refs[a] })
+	next := map[int]int{}
+	for x := range refs {
+		refs[x].j = next[refs[x].i]
+		next[refs[x].i]++
+	}
+	cut := map[int][]string{}
+	if r.Intn(2) == 0 {
+		x := r.Intn(len(refs) + 1)
+		cut[x] = append(cut[x], "ro")
+	}
+	if r.Intn(3) == 0 {
+		x := r.Intn(len(refs) + 1)
+		cut[x] = append(cut[x], "br")
+	}
+	var hist []string
+	for x := 0; x <= len(refs); x++ {
+		hist = append(hist, cut[x]...)
+		if x < len(refs) {
+			hist = append(hist, fmt.Sprintf("p%d.%d", refs[x].i, refs[x].j))
+		}
+	}
+	// operands
+	operand := func(name string) string {
+		style := []string{"b", "b", "n"}[r.Intn(3)]
+		ms := []string{"__name__~eq~" + hexs(name)}
+		if r.Intn(4) == 0 { // a label matcher (the other operand may have none: the ids must still match)
+			l := pool[r.Intn(len(pool))]
+			kv := l[r.Intn(len(l))]
+			ms = append(ms, kv.k+"~"+[]string{"eq", "eq", "ne"}[r.Intn(3)]+"~"+hexs(kv.v))
+			if r.Intn(2) == 0 {
+				ms[0], ms[1] = ms[1], ms[0]
+			}
+		}
+		ag := "-"
+		if r.Intn(5) == 0 {
+			fn := []string{"sum", "min", "max", "count"}[r.Intn(4)]
+			switch r.Intn(3) {
+			case 0:
+				ag = fn + ":none:-"
+			case 1:
+				ag = fn + ":by:" + keyFam[r.Intn(len(keyFam))]
+			default:
+				ag = fn + ":by:" + strings.Join(keyFam, "+")
+			}
+		}
+		return style + "!" + strings.Join(ms, ";") + "!" + ag
+	}
+	var qtoks []string
+	for m := 0; m < 2; m++ {
+		qtoks = append(qtoks, fmt.Sprintf("%d/%d/b/__name__~eq~%s", start, end, hexs(fam[m])))
+	}
+	for q := 3 + r.Intn(5); q > 0; q-- {
+		op := mBinOps[r.Intn(len(mBinOps))]
+		b := "0"
+		if r.Intn(3) == 0 && (op == "eq" || op == "ne" || op == "gt" || op == "lt" || op == "ge" || op == "le") {
+			b = "1"
+		}
+		ln, rn := fam[r.Intn(nmet)], fam[r.Intn(nmet)]
+		if r.Intn(3) != 0 {
+			ln, rn = fam[0], fam[1]
+			if r.Intn(2) == 0 {
+				ln, rn = rn, ln
+			}
+		}
+		if r.Intn(15) == 0 {
+			rn = fam[2] // possibly a metric without any series
+		}
+		a, e := start, end
+		if r.Intn(5) == 0 { // a narrower window on the grid
+			a = grid[r.Intn(len(grid))]
+			e = a + step*uint32(1+r.Intn(300))
+		}
+		qtoks = append(qtoks, fmt.Sprintf("bin!%s!%s!%d!%d!%s!%s", op, b, a, e, operand(ln), operand(rn)))
+	}
+	toks := []string{"me"}
+	for _, s := range sers {
+		toks = append(toks, "S", s.token())
+	}
+	toks = append(toks, "H")
+	toks = append(toks, hist...)
+	toks = append(toks, "Q")
+	toks = append(toks, qtoks...)
+	return strings.Join(toks, " ")
 }
 
 // CARDINALITY line: n series share one tag value, n at / above the largest TSID count one tags-tree block can frame
@@ -797,9 +968,47 @@ type mQuery struct {
 	start, end uint32
 	promql     string
 	agg        bool
+	bin        bool // binary operator between two operands
+}
+
+var mBinOpText = map[string]string{"add": "+", "sub": "-", "mul": "*", "div": "/", "mod": "%", "pow": "^", "eq": "==", "ne": "!=",
+	"gt": ">", "lt": "<", "ge": ">=", "le": "<=", "and": "and", "or": "or", "unless": "unless"}
+
+// bin!<op>!<0|1 bool>!<start>!<end>!<styleL>!<matchersL>!<aggL|->!<styleR>!<matchersR>!<aggR|->
+func parseMBinQuery(tok string) (q mQuery, ok bool) {
+	p := strings.Split(tok, "!")
+	if len(p) != 11 || p[0] != "bin" || (p[2] != "0" && p[2] != "1") {
+		return
+	}
+	opText, okop := mBinOpText[p[1]]
+	if !okop {
+		return
+	}
+	operand := func(style, ms, ag string) (string, bool) {
+		t := p[3] + "/" + p[4] + "/" + style + "/" + ms
+		if ag != "-" {
+			t += "/" + ag
+		}
+		oq, ok := parseMQuery(t)
+		return oq.promql, ok && !oq.bin
+	}
+	l, ok1 := operand(p[5], p[6], p[7])
+	r, ok2 := operand(p[8], p[9], p[10])
+	a, e1 := strconv.ParseUint(p[3], 10, 32)
+	b, e2 := strconv.ParseUint(p[4], 10, 32)
+	if !ok1 || !ok2 || e1 != nil || e2 != nil || a > b {
+		return
+	}
+	if p[2] == "1" {
+		opText += " bool"
+	}
+	return mQuery{start: uint32(a), end: uint32(b), promql: "(" + l + ") " + opText + " (" + r + ")", agg: true, bin: true}, true
 }
 
 func parseMQuery(tok string) (q mQuery, ok bool) {
+	if strings.HasPrefix(tok, "bin!") {
+		return parseMBinQuery(tok)
+	}
 	p := strings.Split(tok, "/")
 	if len(p) != 4 && len(p) != 5 {
 		return
@@ -1243,9 +1452,14 @@ func execE2EM(line string) Result {
 			Fails: []PropFail{{Sig: csig, Msg: fmt.Sprintf("metrics engine worker exited abnormally (%v) after %d of %d answers: %s at %s", werr, len(resLines), 2*len(qs), pmsg, site)}}, Nontrivial: true}
 	}
 	var segs []string
+	nbin := 0
 	for qi, q := range qs {
 		a := canonMAnswer(resLines[qi], q.agg)
 		b := canonMAnswer(resLines[len(qs)+qi], q.agg)
+		if q.bin {
+			a, b = strings.Replace(a, "kind=magg", "kind=mbin", 1), strings.Replace(b, "kind=magg", "kind=mbin", 1)
+			nbin++
+		}
 		segs = append(segs, a)
 		if mUnaligned(sers, ingested, q) {
 			// latitude: some point of the range is not alone on the start of its downsample bucket; the engine then
@@ -1292,6 +1506,29 @@ func execE2EM(line string) Result {
 	}
 	if rwEscaped {
 		tg = append(tg, "remote-write-backslash-or-quote")
+	}
+	if nbin > 0 {
+		tg = append(tg, "q:binop")
+		brace, shared := false, false
+		seenSet := map[string]string{}
+		for _, s := range sers {
+			for _, kv := range s.labels {
+				if strings.ContainsAny(kv.v, "{}") {
+					brace = true
+				}
+			}
+			cl := canonLabels(s.labels)
+			if n, ok := seenSet[cl]; ok && n != s.name {
+				shared = true
+			}
+			seenSet[cl] = s.name
+		}
+		if brace {
+			tg = append(tg, "binop:brace-in-label-value")
+		}
+		if shared {
+			tg = append(tg, "binop:two-metrics-share-a-label-set")
+		}
 	}
 	return Result{Out: strings.Join(segs, " | "), Fails: fails, Nontrivial: npts >= 2 && len(qs) >= 1, Tags: tg}
 }
